@@ -267,6 +267,20 @@ class Interp:
             d = self._decide_cond(cond)
             if d is not None:
                 return d
+            # one question, one decision: `not c`, `a != b` and `b == a` are all answered through `a == b`
+            flip = False
+            base = cond
+            while True:
+                if base.op == "not" and len(base.args) == 1 and isinstance(base.args[0], Cond):
+                    base, flip = base.args[0], not flip
+                elif base.op == "!=" and len(base.args) == 2 and all(is_num(a) for a in base.args):
+                    base, flip = Cond("==", base.args), not flip
+                else:
+                    break
+            if base.op == "==" and len(base.args) == 2 and all(is_num(a) for a in base.args) and repr(base.args[0]) > repr(base.args[1]):
+                base = Cond("==", (base.args[1], base.args[0]))
+            if base is not cond:
+                return (not self.decide(base)) if flip else self.decide(base)
             for (c, v) in self.taken:
                 if isinstance(c, Cond) and c.key() == cond.key():
                     return v
@@ -1873,6 +1887,8 @@ class Interp:
             return list(v)
         if isinstance(v, range):
             return list(v)
+        if v is None or isinstance(v, (bool, int, float, Fraction)):
+            raise PyRaise("TypeError", None, f"{type(v).__name__} object is not iterable")
         raise Undecided(f"iteration over {v!r}")
 
     _KW_OK = {"sorted": {"key", "reverse"}, "min": {"key", "default"}, "max": {"key", "default"}, "enumerate": {"start"}, "zip": {"strict"}, "dict": None,
